@@ -25,8 +25,10 @@ def run(F, X, rep):
     E.g_hash_gate(C, rep, "C13-N3")
     E.s_signature_gate(C, rep, "C13-N3")
     E.a_amount_table(C, rep, "C13-N3")
+    E.x_info_built_from_request(C, rep, "C13-N3")
     H.r1_rewrite(C, rep, "C13-R1")
     H.r2_order_preserving_removal(C, rep, "C13-R2")
+    H.g1_lookup_by_type(C, rep, "C13-L")
     bodies = p_c18.tlv_bodies(F)
     p_c18.c18_t1(F, X, rep, bodies)
     p_c18.c18_l1(F, X, rep, bodies)
